@@ -19,6 +19,14 @@ CLAIMED = {
    text="Complete census on every run: every lint type in v3/lints implements a lint interface iff exactly one Register* call (resolved by callee object) constructs it, executed on every path of a func init of a package in zlint's import closure with no file excluded from the build; all metadata obligations (constant lower-case e_/w_/n_ name unique across the three kinds, description, declared source, constructor, dates folding to UTC instants with effective < ineffective) and the registry-coherence obligations (three register siblings: guards dominate updates, all five tables updated on the success path, names re-sorted; read API returns the matching table; Names/Sources merge all kinds; Register* panic on error) are discharged one by one; obligations == discharged or the check fails.",
    note=TRUST+"Go runs every init of every linked package once; sort.Strings sorts. Default build configuration only in the quick tier.",
    technique="program census over go/types + dominance rules on go/ssa (registration sites, registry siblings)", ref="§3 C12"),
+ "C03": dict(level="proof",
+   text="The effective window is enforced by three framework functions, so it is decided once for all 377 lints: the decision table of checkEffective and of each life-cycle function is extracted from SSA with time comparisons as uninterpreted atoms and compared with the half-open-window specification on every ordering of (effective, ineffective, target) incl. zero instants — exhaustive for all instants because the code touches them only through IsZero/Before/After/Equal; argument binding (NotBefore/ThisUpdate/NextUpdate), absence of any other interface call of a rule body, the deprecated wrapper and constant folding of every registered date are separate obligations. All obligations must discharge.",
+   note=TRUST+"time.Time comparison methods are location-independent (documented). Lint bodies are not assumed anything about: they are simply not called outside the window.",
+   technique="decision-table extraction by path enumeration over go/ssa with uninterpreted atoms, compared with the spec on a finite order-abstract domain; call-site census", ref="§3 C03"),
+ "C04": dict(level="other",
+   text="Life-cycle decision tables (scope gate, constructor, MaybeConfigure, CheckApplies, window, Execute) extracted from SSA and compared with the specification on source × scope × configuration outcome × applicability × window position for all three kinds; recover wrapper shape; census of framework stores into results; freshness of all 377 constructors. Decides ordering, gating, pass-through and instance identity for every input; the meaning of the scope predicates and of each lint's CheckApplies is treated as an oracle and not decided.",
+   note=TRUST+"util.IsServerAuthCert/IsEmailProtectionCert/IsCodeSigning, Configuration.MaybeConfigure and the lint methods are uninterpreted oracles.",
+   technique="decision-table extraction (path enumeration over go/ssa) vs. spec table; SSA freshness analysis of constructors; field-write census", ref="§3 C04"),
 }
 
 NOT_YET = "check not built yet in this session (see DESIGN.md §3 for the planned static rule)"
